@@ -174,7 +174,7 @@ theorem stepWorld_okT {s : Sim} (hI : SInvT s) (op : Op) (hop : ∀ k, op ≠ .u
     · exact ⟨⟨hW, hK⟩, TPast.refl _⟩
     · have := tframe (w' := { s.cur with jobs := s.cur.jobs.map (fun j => if j.key = k' then { j with state := jobAfter j.state ok } else j) }) hW (by rfl)
       exact ⟨⟨this.1, hK⟩, this.2⟩
-  | metric t text key =>
+  | metric t text key nm =>
     simp only [stepWorld]
     split
     · have := tframe (w := s.cur) (w' := { s.cur with db := _ }) hW (by rfl)
